@@ -681,7 +681,7 @@ pub fn replay(case: &Value) -> Option<String> {
 fn doc_alphabet() -> Vec<DEv> {
     vec![
         DEv::open("a"),
-        DEv::Open { name: "a".into(), attrs: AttrSet { raw: "  k=v  id='i' ".into(), parsed: vec![] }, slash: false },
+        DEv::Open { name: "a".into(), attrs: AttrSet { raw: "  K=v  id='i' ".into(), parsed: vec![] }, slash: false },
         DEv::open("q"),
         DEv::open("br"),
         DEv::open_slash("a"),
